@@ -1,5 +1,6 @@
 import PgBifrost.Model.Partitioner
 import PgBifrost.Gen.Consts
+import PgBifrost.Gen.Switches
 /-!
 # C06 — partition method decides batch composition as documented (property theorems)
 
@@ -57,5 +58,17 @@ theorem name_tables_as_documented :
     kinesisPartitionMethods = ["KINESIS_PART_WALSTART", "KINESIS_PART_BATCH"] := by decide
 
 example : partitionKey .txnBucket 4 [] "123".toUTF8.toList = decimal (PgBifrost.Crc32.quickHash "123".toUTF8.toList 4) := rfl
+
+/-- **the partitioner's switch is the modelled one** (table regenerated from `Partitioner.Start` on every run):
+`none` ↦ the empty key, `tablename` ↦ the relation, `transaction` ↦ the transaction id, `transaction-bucket` ↦
+`strconv.Itoa(QuickHash(transaction, buckets))` — the cases of `Partitioner.partitionKey` — and the key is
+stamped on the message exactly once, before the one send on the output channel. -/
+theorem partition_switch_as_in_source :
+    PgBifrost.Gen.Switches.partitionSwitch =
+      [("PART_METHOD_NONE", "partitionKey = \"\""),
+       ("PART_METHOD_TABLENAME", "partitionKey = msg.Pr.Relation"),
+       ("PART_METHOD_TXN", "partitionKey = msg.Pr.Transaction"),
+       ("PART_METHOD_TXN_BUCKET", "partitionKey = strconv.Itoa(utils.QuickHash(msg.Pr.Transaction, f.buckets))")] ∧
+    PgBifrost.Gen.Switches.partitionStamp = ["msg.PartitionKey = partitionKey", "f.OutputChan <- msg"] := by decide
 
 end PgBifrost.Props.C06
